@@ -127,7 +127,7 @@ class History:
 def gen_schedules(rng, tier, kinds=('bsp', 'blp'), flush=True, shut=True):
     big = tier == 'thorough'
     out = []
-    n_cases = 12000 if big else 900
+    n_cases = 30000 if big else 3000
     for _ in range(n_cases):
         kind = rng.choice(kinds)
         maxq = rng.choice([1, 2, 2, 3, 4])
@@ -170,3 +170,250 @@ def gen_schedules(rng, tier, kinds=('bsp', 'blp'), flush=True, shut=True):
         line = f'{kind} {maxq} {maxb} {nprod} {adds} {fl or "-"} {nshut} {xs} ; ' + ' ; '.join(toks)
         out.append(Case(line, 'd_bsp' if kind == 'bsp' else 'd_blp', (kind, 'random', f'fl{len(fl)}sh{nshut}')))
     return out
+
+
+# ------------------------------------------------------------------------------------------------------------------
+# implementation-side oracles (the property clauses evaluated on the observable history alone)
+
+def analyse(h: History):
+    """derived facts: per record begin/chk/commit/ret times, exports, flush and shutdown calls"""
+    rec = {}          # id -> dict(tid, begin, chk(None/0/1), chk_t, commit_t, ret_t)
+    cur = {}          # tid -> id in flight
+    exports = []      # dict(begin_t, end_t, ids, size, inflight)
+    xflush = []       # (begin_t, end_t)
+    xshut = []        # begin_t
+    flushes = {}      # tid -> dict(begin, ret_t, ret)
+    shuts = {}        # tid -> dict(begin, ret_t, ret)
+    worker_end = None
+    blocking = []     # producer notes that block
+    open_exp = None
+    for tm, tid, role, t in h.events:
+        k = t[0]
+        if role[0] == 'P':
+            if k == 'onend-begin':
+                i = int(t[1][1:]); rec[i] = {'tid': tid, 'begin': tm, 'chk': None, 'chk_t': None, 'commit_t': None, 'ret_t': None}; cur[tid] = i
+            elif k == 'ld' and t[1] == 'is_shutdown':
+                rec[cur[tid]]['chk'] = int(t[2]); rec[cur[tid]]['chk_t'] = tm
+            elif k == 'casw' and t[1] == 'head' and t[4] == 'ok':
+                rec[cur[tid]]['commit_t'] = tm
+            elif k == 'onend-ret':
+                rec[cur[tid]]['ret_t'] = tm
+            elif k in ('lock', 'relock', 'wait', 'twait', 'join', 'trylock'):
+                blocking.append((tid, ' '.join(t)))
+        elif role == 'W':
+            if k == 'export-begin':
+                ids = [] if t[2] == '-' else [(-1 if x == 'null' else int(x[1:])) for x in t[2].split('.')]
+                open_exp = {'begin_t': tm, 'end_t': None, 'ids': ids, 'size': int(t[1]), 'inflight': int(t[3].split('=')[1])}
+                exports.append(open_exp)
+            elif k == 'export-end' and open_exp is not None:
+                open_exp['end_t'] = tm
+            elif k == 'xflush-begin':
+                xflush.append([tm, None])
+            elif k == 'xflush-end' and xflush:
+                xflush[-1][1] = tm
+            elif k == 'end':
+                worker_end = tm
+        elif role[0] == 'F':
+            if k == 'flush-begin':
+                flushes[tid] = {'begin': tm, 'ret_t': None, 'ret': None}
+            elif k == 'flush-ret':
+                flushes[tid]['ret_t'] = tm; flushes[tid]['ret'] = int(t[1])
+        else:
+            if k in ('shutdown-begin', 'dtor-begin'):
+                shuts[tid] = {'begin': tm, 'ret_t': None, 'ret': None, 'dtor': k == 'dtor-begin'}
+            elif k == 'shutdown-ret':
+                shuts[tid]['ret_t'] = tm; shuts[tid]['ret'] = int(t[1])
+            elif k == 'dtor-ret':
+                shuts[tid]['ret_t'] = tm; shuts[tid]['ret'] = 1
+            elif k == 'xshutdown-begin':
+                xshut.append(tm)
+        if role != 'W' and k in ('export-begin', 'xflush-begin'):
+            exports.append({'begin_t': tm, 'end_t': tm, 'ids': [], 'size': -1, 'inflight': 99, 'by': role})
+    return rec, exports, xflush, xshut, flushes, shuts, worker_end, blocking
+
+
+def oracle_c01(case, out):
+    if out.startswith('CRASH'):
+        return ('no-crash', out)
+    h = History(case.line, out)
+    if not h.done:
+        return None   # termination is C02's clause
+    rec, exports, xflush, xshut, flushes, shuts, worker_end, blocking = analyse(h)
+    delivered = [i for e in exports for i in e['ids']]
+    if -1 in delivered:
+        return ('no-null-record-delivered', out[-200:])
+    if len(set(delivered)) != len(delivered):
+        return ('nothing-delivered-twice', f'{sorted(delivered)}')
+    first_shut = min([s['begin'] for s in shuts.values()], default=None)
+    exp_end_times = sorted((e['end_t'], e['size']) for e in exports if e['end_t'] is not None)
+    begun_times = sorted(r['chk_t'] for r in rec.values() if r['chk'] == 0)
+    for i, r in rec.items():
+        if r['ret_t'] is None:
+            continue
+        if r['commit_t'] is not None:
+            # accepted: must be delivered exactly once, unless its OnEnd raced Shutdown (not "ended before shutdown")
+            if i not in delivered and (first_shut is None or r['ret_t'] < first_shut):
+                return ('accepted-record-is-delivered', f'r{i} accepted at {r["commit_t"]}, never exported')
+        else:
+            if i in delivered:
+                return ('only-accepted-records-delivered', f'r{i}')
+            if r['chk'] == 0:
+                # dropped: only because the queue was at capacity
+                begun_before_ret = sum(1 for t in begun_times if t < r['ret_t']) - 1
+                exported_before_begin = sum(sz for (t, sz) in exp_end_times if t < r['chk_t'])
+                if begun_before_ret - exported_before_begin < h.cfg.maxq:
+                    return ('dropped-only-when-queue-full', f'r{i}: begun-before-return={begun_before_ret} exported-before-begin={exported_before_begin} max_queue_size={h.cfg.maxq}')
+    for tid in {r['tid'] for r in rec.values()}:
+        seq = [i for i in delivered if rec.get(i, {}).get('tid') == tid]
+        if seq != sorted(seq):
+            return ('per-producer-order', f'T{tid}: {seq}')
+    if blocking:
+        return ('producers-never-wait', str(blocking[:2]))
+    if h.live not in ('0',):
+        return ('no-leak', h.summary)
+    return None
+
+
+def oracle_c02(case, out):
+    if out.startswith('CRASH'):
+        return ('no-crash', out)
+    h = History(case.line, out)
+    if not h.done:
+        return ('forceflush-and-shutdown-terminate', h.summary)
+    rec, exports, xflush, xshut, flushes, shuts, worker_end, blocking = analyse(h)
+    exp_of = {}
+    for e in exports:
+        for i in e['ids']:
+            exp_of[i] = e
+    for tid, f in flushes.items():
+        if f['ret_t'] is None:
+            continue
+        if f['ret'] == 1:
+            last = f['begin']
+            for i, r in rec.items():
+                if r['commit_t'] is not None and r['commit_t'] < f['begin']:
+                    e = exp_of.get(i)
+                    if e is None or e['end_t'] is None or e['end_t'] > f['ret_t']:
+                        return ('flush-true-means-everything-before-was-exported', f'flusher T{tid}: r{i} committed at {r["commit_t"]} < begin {f["begin"]}, not exported by {f["ret_t"]}')
+                    last = max(last, e['end_t'])
+            if not any(b >= last and e2 is not None and e2 <= f['ret_t'] for b, e2 in xflush):
+                return ('flush-true-means-exporter-forceflush-invoked', f'flusher T{tid}: no exporter ForceFlush between {last} and {f["ret_t"]}')
+    rets = [s['ret_t'] for s in shuts.values() if s['ret_t'] is not None]
+    if rets:
+        first_ret = min(rets)
+        if len(xshut) != 1:
+            return ('exporter-shut-down-exactly-once', f'{len(xshut)} exporter Shutdown calls')
+        first = min(shuts.values(), key=lambda s: s['ret_t'] if s['ret_t'] is not None else 10 ** 9)
+        for i, r in rec.items():
+            if r['commit_t'] is not None and r['ret_t'] is not None and r['ret_t'] < min(s['begin'] for s in shuts.values()):
+                e = exp_of.get(i)
+                if e is None or e['end_t'] is None or e['end_t'] > first_ret:
+                    return ('shutdown-exports-everything-produced-before', f'r{i}')
+        for e in exports:
+            if e['begin_t'] > first_ret:
+                return ('no-exporter-call-after-shutdown-returned', f'Export at {e["begin_t"]} > {first_ret}')
+        for b, _e in xflush:
+            if b > first_ret:
+                return ('no-exporter-call-after-shutdown-returned', f'ForceFlush at {b}')
+        for b in xshut:
+            if b > first_ret:
+                return ('no-exporter-call-after-shutdown-returned', f'Shutdown at {b}')
+        for i, r in rec.items():
+            if r['begin'] > first_ret and (r['commit_t'] is not None or r['chk'] != 1):
+                return ('late-onend-is-a-noop', f'r{i}')
+        for tid, f in flushes.items():
+            if f['begin'] > first_ret and f['ret'] not in (0, None):
+                return ('late-forceflush-returns-false', f'T{tid}')
+        for tid, s in shuts.items():
+            if s['begin'] > first_ret and s['ret'] not in (1, None):
+                return ('late-shutdown-returns-true', f'T{tid}')
+    elif xshut:
+        pass
+    return None
+
+
+def oracle_c03(case, out):
+    if out.startswith('CRASH'):
+        return ('no-crash', out)
+    h = History(case.line, out)
+    rec, exports, xflush, xshut, flushes, shuts, worker_end, blocking = analyse(h)
+    if h.reentrant != 0:
+        return ('export-never-reentered', h.summary)
+    for e in exports:
+        if e.get('by'):
+            return ('only-the-worker-calls-the-exporter', e['by'])
+        if e['inflight'] != 1:
+            return ('export-never-reentered', f'inflight={e["inflight"]}')
+        if e['size'] < 1:
+            return ('batch-non-empty', f'size {e["size"]}')
+        if e['size'] > h.cfg.maxb:
+            return ('batch-at-most-max_export_batch_size', f'batch of {e["size"]} > {h.cfg.maxb} ({"after" if any(f["begin"] < e["begin_t"] for f in flushes.values()) else "without"} a ForceFlush)')
+    return None
+
+
+H_SSP = Harness('d_ssp', ['harness/d_simple.cc'], flags=SHIM, includes=SDK_INCLUDES, plain_srcs=['harness/shim/detsched.cc'],
+                sdk_srcs=sdk_sources('common') + ['sdk/src/trace/exporter.cc'])
+H_SLP = Harness('d_slp', ['harness/d_simple.cc'], flags=SHIM + ['-DSIMPLE_LOGS'], includes=SDK_INCLUDES, plain_srcs=['harness/shim/detsched.cc'],
+                sdk_srcs=sdk_sources('common') + ['sdk/src/logs/exporter.cc', 'sdk/src/logs/simple_log_record_processor.cc'])
+
+
+def model_line(case, out):
+    w = case.line.split()[0]
+    if w in ('bsp', 'blp'):
+        return abstract(case.line, out)
+    if w in ('ssp', 'slp'):
+        cfg, rest = case.line.split(' ; ', 1) if ' ; ' in case.line else (case.line, '')
+        scripts = ' '.join('L' * int(n) if int(n) else '-' for n in cfg.split()[1:])
+        return f'spin {scripts}' + (f' ; {rest}' if rest else '')
+    return case.line
+
+
+def agree(case, out, mout):
+    w = case.line.split()[0]
+    if w in ('bsp', 'blp'):
+        return mout.startswith('ok ')
+    return out == mout
+
+
+def batch_corpus():
+    out = []
+    # D01: a ForceFlush before the records arrive, then more than max_export_batch_size records queued
+    out.append(Case('bsp 3 1 1 3 i 0 s ; t2 ; t2 ; t2 ; t2 ; t2 ; t2 ; t1 ; t1 ; t1 ; t1 ; t1 ; t1 ; t1 ; t1 ; t1 ; t1 ; t1 ; t1 ; t1 ; t1 ; t1 ; t1 ; t0 ; t0 ; t0 ; t0 ; t0 ; t0 ; t0 ; t0 ; t0 ; t0 ; t0 ; t0', 'd_bsp', ('corpus', 'D01-flush-then-batch'), 'corpus'))
+    out.append(Case('blp 3 1 1 3 i 0 s ; t2 ; t2 ; t2 ; t2 ; t2 ; t2 ; t1 ; t1 ; t1 ; t1 ; t1 ; t1 ; t1 ; t1 ; t1 ; t1 ; t1 ; t1 ; t1 ; t1 ; t1 ; t1 ; t1 ; t1 ; t0 ; t0 ; t0 ; t0 ; t0 ; t0 ; t0 ; t0 ; t0 ; t0 ; t0 ; t0', 'd_blp', ('corpus', 'D01-flush-then-batch'), 'corpus'))
+    out.append(Case('bsp 4 2 1 3 i 1 s ; t0 ; t0 ; t0 ; t0 ; t0 ; t0 ; t1 ; t1 ; t1 ; t1 ; t1 ; t1 ; t1 ; t1 ; t1 ; t1 ; t1 ; t0 ; t0 ; t0 ; t0 ; t0', 'd_bsp', ('corpus', 'flush-and-shutdown'), 'corpus'))
+    return out
+
+
+def gen_simple(rng, tier):
+    big = tier == 'thorough'
+    out = []
+    for _ in range(3000 if big else 250):
+        kind = rng.choice(['ssp', 'slp'])
+        nt = rng.choice([2, 2, 3])
+        counts = [rng.randrange(1, 4) for _ in range(nt)]
+        n = rng.randrange(5, 80)
+        if rng.random() < 0.5:
+            sched = [rng.randrange(nt) for _ in range(n)]
+        else:
+            cur = rng.randrange(nt); sched = []
+            for _k in range(n):
+                if rng.random() < 0.2:
+                    cur = rng.randrange(nt)
+                sched.append(cur)
+        out.append(Case(f'{kind} ' + ' '.join(map(str, counts)) + ' ; ' + ' ; '.join(f't{t}' for t in sched),
+                        'd_ssp' if kind == 'ssp' else 'd_slp', (kind, 'random')))
+    return out
+
+
+def oracle_simple(case, out):
+    """SimpleSpanProcessor / SimpleLogRecordProcessor: Export never re-entered"""
+    if out.startswith('CRASH'):
+        return ('no-crash', out)
+    m = re.search(r'done=(\d) viol=(\d+)', out)
+    if not m:
+        return ('summary', out[-100:])
+    if m.group(1) != '1':
+        return ('onend-terminates', out[-100:])
+    if m.group(2) != '0' or re.search(r'cs (?!1\b)\d+', out):
+        return ('export-never-reentered', out[-200:])
+    return None
